@@ -22,6 +22,7 @@ def check(run):
                        lambda i: dict(VERIF_SEED=run.seed, VERIF_SHARD=i, VERIF_SHARDS=shards, VERIF_N=run.pick(30, 0),
                                       VERIF_PAIRS=run.pick(0, 1)), 'c09', timeout=3000)
     run.sample_from(traces[0], 2)
+    dmnfam.conformance(run, traces)
     run.validate('Monitor_Daemon', dmnfam.monitor_cfg(INV + ['C03_HandBackOrFull'], []), traces, 'mon')
     scen = dmnfam.count(traces, lambda ln: '"ev":"Begin"' in ln)
     inj = dmnfam.count(traces, lambda ln: '"ev":"Inject"' in ln)
